@@ -17,7 +17,8 @@ META = {
             "state root = best root; Latest = best.no; no reorg marker) holds initially and is preserved by add_block for every arriving "
             "block (valid, invalid, duplicate, orphan, side branch, reorganisation), hence after every history.  The model follows the "
             "repaired reorg (fixes/F7_reorg_restore_state.diff); for the unrepaired code add_block_inv is refuted with the 3-block witness. "
-            "Hypotheses: block ids are collision-free digests (F8 excluded) and block number 0 is not re-used (known finding). "
+            "Hypotheses: block ids are collision-free digests (F8 excluded); for the code without fixes/F27_blockno_zero.diff additionally that no "
+            "arriving block carries BlockNo 0 (refuted otherwise; with the repair no hypothesis on numbers is needed: C05_history_inv_repaired). "
             "The model is tied to /repo on every run: identical observables (best, height->hash, tx->(block,idx), receipts, stored, "
             "errBlocks, orphan pool, MemPool messages, state root) after every arrival on generated block trees, and Inv is evaluated "
             "directly on the implementation through the query surface and a raw key scan.",
@@ -97,7 +98,7 @@ def run(ctx):
                                "engine harness/engines/chaindb + generator lib/chaindb.py", "consensus stub (SBP semantics, scripted LIB)",
                                "apply/spent abstraction of block execution (C01-C04)"]
     ctx.assumptions = ["block identifiers are honest, collision-free digests (hash_field = digest; F8 is g2's finding)",
-                       "an arriving block does not carry BlockNo 0 (known finding %s)" % NO0_KEY,
+                       "an arriving block does not carry BlockNo 0 unless fixes/F27_blockno_zero.diff is applied (known finding %s)" % NO0_KEY,
                        "fewer than 128 rejected blocks / 100 parked orphans per history (LRU bounds)"]
     eng = cd.build_engine(ctx)
     f7_fixed = cd.source_has_f7_fix(ctx.repo)
